@@ -453,8 +453,33 @@ def gen_C10(tier, rng):
         c = Case("c10_r%d" % n); n += 1
         for r in three_reps(c, e): c.q("enum %d" % r)
         cases.append(c.done(pe(e), True)); dist["random"] = dist.get("random", 0) + 1
+    # wide diagrams: the weight is known in closed form (groups of disjoint variables), no enumeration
+    for _ in range(60 if tier == "quick" else 600):
+        nvars = rng.choice([20, 40, 52, 53, 54, 55, 60, 63, 64, 65, 70, 100])
+        names = ["x%03d" % i for i in range(nvars)]
+        order = names[:]; rng.shuffle(order)
+        groups = []; i = 0
+        while i < nvars and len(groups) < rng.randint(1, 4):
+            k = rng.randint(1, max(1, min(nvars - i, rng.choice([1, 2, 3, nvars])))); groups.append(order[i:i + k]); i += k
+        rest = order[i:]
+        weight = 1; parts = []
+        for g_ in groups:
+            kind_ = rng.choice(["or", "and", "nor"])
+            lits_ = [gen.L(x) if rng.random() < 0.7 else gen.Nn(gen.L(x)) for x in g_]
+            if kind_ == "or": parts.append(gen.O(lits_)); weight *= (1 << len(g_)) - 1
+            elif kind_ == "and": parts.append(gen.A(lits_)); weight *= 1
+            else: parts.append(gen.Nn(gen.O(lits_))); weight *= 1
+        for x in rest: parts.append(gen.O([gen.L(x), gen.Nn(gen.L(x))]))
+        weight *= 1 << len(rest)
+        e = gen.A(parts)
+        negate = rng.random() < 0.4
+        if negate: e = gen.Nn(e); weight = (1 << nvars) - weight
+        c = Case("c10_w%d" % n); n += 1
+        r0 = c.r("expr " + pe(e)); r2 = c.r("conv B %d" % r0); c.q("weight %d %d" % (r2, weight))
+        k_ = c.r("op1 not %d" % r2); c.q("weight %d %d" % (k_, (1 << nvars) - weight))
+        cases.append(c.done("wide%d" % n, True)); dist["wide_%d" % nvars] = dist.get("wide_%d" % nvars, 0) + 1
     return {"cases": cases, "exhaustive": True, "dist": dist,
-            "rule": "every truth function of <= %d variables in the three representations: domain, image, relation, support, weight, sat_point, degrees (iterators also polled after exhaustion); conjunctions of 0..%d literals for the domain order; random 5-9 input functions; oracle: domain = 2^n points in lexicographic order, image = specified function in that order, relation = zip, support = exactly the 1-points (as a set for diagrams), weight = their number, sat_point in support / none iff empty; non-trivial = all; distinct = function" % (3 if tier == "quick" else 4, 8 if tier == "quick" else 10)}
+            "rule": "every truth function of <= %d variables in the three representations: domain, image, relation, support, weight, sat_point, degrees (iterators also polled after exhaustion); conjunctions of 0..%d literals for the domain order; random 5-9 input functions; diagrams with 20..100 inputs whose weight is known in closed form (beyond 2^53 and 2^64); oracle: domain = 2^n points in lexicographic order, image = specified function in that order, relation = zip, support = exactly the 1-points (as a set for diagrams), weight = their number, sat_point in support / none iff empty; non-trivial = all; distinct = function" % (3 if tier == "quick" else 4, 8 if tier == "quick" else 10)}
 
 
 # ------------------------------------------------------------------ C11
@@ -547,6 +572,7 @@ def random_program(rng, c, length, names, allow_tb=True):
         if len(kinds) == before: continue
         last = len(kinds) - 1
         c.q("obs %d" % last)
+        if kinds[last] != "E": c.q("fresh %d" % last)
         if rng.random() < 0.25: c.q("enum %d" % last)
     return kinds
 
@@ -952,3 +978,88 @@ def gen_C20(tier, rng):
 
 
 GENERATORS.update({"C20": gen_C20})
+
+
+# ------------------------------------------------------------------ C19 (Python bindings)
+def gen_C19(tier, rng):
+    """scripted call sequences restricted to what the Python classes expose; executed by the Python module,
+    the Rust harness and the model"""
+    cases = []; dist = collections.Counter(); n = 0
+    def py_reps(c, e):
+        r0 = c.r("expr " + pe(e)); r1 = c.r("conv T %d" % r0); r2 = c.r("conv B %d" % r0); return [r0, r1, r2]
+    universe = ["a", "b", "c", "z"]
+    vals = list(gen.partial_valuations(universe))
+    subsets = [list(s) for k in range(4) for s in itertools.combinations(universe, k)]
+    nprog = 220 if tier == "quick" else 3000
+    for _ in range(nprog):
+        c = Case("c19_%d" % n); n += 1
+        nv = rng.randint(0, 3); vs = ["a", "b", "c"][:nv]
+        tv = "".join(rng.choice("01") for _ in range(1 << nv))
+        e = gen.expr_of_tv(vs, tv, rng.choice(["dnf", "cnf", "mix"])) if rng.random() < 0.6 else gen.rand_tree(rng, 3, ["a", "b", "c"], max_arity=3)
+        regs = py_reps(c, e)
+        g = gen.rand_tree(rng, 2, ["a", "b", "d"], max_arity=2, consts=False, empties=False)
+        gregs = py_reps(c, g)
+        for r in regs:
+            c.q("obs %d" % r); c.q("enum %d" % r); c.q("repr %d" % r); c.q("pyfrom %d" % r)
+            for v in rng.sample(vals, 3):
+                for d in ("0", "1", "-"): c.q("eval %d %s %s" % (r, d, val_tokens(v)))
+        c.q("preds %d" % regs[0]); c.q("show %d" % regs[0]); c.q("pycopy %d" % regs[0])
+        c.q("csvdef %d" % regs[1]); c.q("display %d" % regs[1])
+        f = rng.choice("NCWK"); c.q("render %d %s %s %s" % (regs[1], rng.choice("AMDE"), f, f))
+        c.q("row %d %d" % (regs[1], rng.randint(0, max(0, (1 << len(gen.lits(e))) - 1))))
+        for i, (x, y) in enumerate(zip(regs, gregs)):
+            c.q("equiv %d %d" % (x, y)); c.q("implied %d %d" % (x, y)); c.q("semeq %d %d" % (x, y))
+            k = c.r("restrict %d %s" % (x, val_tokens(rng.choice(vals)))); c.q("obs %d" % k)
+            for op in ("exists", "forall", "deriv"):
+                k = c.r("%s %d %s" % (op, x, set_tokens(rng.choice(subsets)))); c.q("obs %d" % k)
+            key = rng.choice(["a", "b", "d", "z"])
+            k = c.r("subst %d 1 %s %d" % (x, hexname(key), y)); c.q("obs %d" % k)
+            k = c.r("op1 not %d" % x); c.q("obs %d" % k)
+            if i == 0:
+                for o in ("and", "or"):
+                    k = c.r("binary %s %d %d" % (o, x, y)); c.q("obs %d" % k); c.q("show %d" % k)
+                k = c.r("nary %s 3 %d %d %d" % (rng.choice(["and", "or"]), x, y, x)); c.q("show %d" % k)
+                k = c.r("negate %d" % x); c.q("show %d" % k)
+                for o in ("nnf", "cnf", "dnf"):
+                    k = c.r("op1 %s %d" % (o, x)); c.q("show %d" % k); c.q("preds %d" % k)
+            else:
+                for o in ("and", "or", "xor"):
+                    k = c.r("op2 %s val %d %d" % (o, x, y)); c.q("obs %d" % k)
+            # conversions back and forth (the table -> diagram one is known finding D1 on both sides)
+            for tgt in "ETB":
+                k = c.r("conv %s %d" % (tgt, x)); c.q("obs %d" % k)
+        k = c.r("mkconst E %d" % rng.randint(0, 1)); c.q("show %d" % k)
+        k = c.r("mkconst B %d" % rng.randint(0, 1)); c.q("enum %d" % k)
+        k = c.r("mkliteral E %s %d" % (hexname("q"), rng.randint(0, 1))); c.q("show %d" % k)
+        k = c.r("mkliteral B %s %d" % (hexname("q"), rng.randint(0, 1))); c.q("enum %d" % k)
+        dist["program"] += 1
+        cases.append(c.done(c.id, True))
+    # parsing through the constructor, exception kinds
+    strings = ["a & b", "a | !b & c", "(a", "a &", "", "a b", "{x y} | t", "a ∧ ¬b", "NOT a", "true", "F", "a & & b", "}", "((a))", "v", "a v b"]
+    for _ in range(60 if tier == "quick" else 600): strings.append(rnd_sentence(rng, rng.randint(1, 3)))
+    for k in range(0, len(strings), 20):
+        c = Case("c19_p%d" % k)
+        for s_ in strings[k:k + 20]:
+            c.q("parse %s" % hexname(s_)); r = c.r("parse %s" % hexname(s_)); c.q("show %d" % r)
+        for a in ("int", "none", "list", "float", "bytes"): c.q("pyctor %s" % a)
+        c.q("pyvars %s %s" % (hexname("x"), hexname("y1")))
+        dist["parse"] += 1
+        cases.append(c.done(c.id, True))
+    # CSV import through both entry points, error kinds
+    texts = ["a,r\n0,1\n1,0\n", "0,1\n1,0\n", "", "a,r\n0,1\n", "a,a,r\n0,0,1\n0,1,1\n1,0,0\n1,1,0\n", "a,r\n0,x\n1,0\n", "a,r\n0,1\n1\n", "a,b,result\n", "\n", "a,r\n0,1\n0,0\n"]
+    for k in range(0, len(texts), 5):
+        c = Case("c19_c%d" % k)
+        for t_ in texts[k:k + 5]:
+            for w in ("str", "file"):
+                r = c.r("csvin %s %s" % (w, hexname(t_))); c.q("obs %d" % r); c.q("csvdef %d" % r)
+        dist["csv"] += 1
+        cases.append(c.done(c.id, True))
+    # the documented refusal surfaces as an exception too
+    c = Case("c19_refuse"); regs = py_reps(c, gen.A([gen.L("a"), gen.L("b")])); g = py_reps(c, gen.O([gen.L("a"), gen.L("c")]))
+    k = c.r("subst %d 1 %s %d" % (regs[2], hexname("a"), g[2])); c.q("obs %d" % k)
+    cases.append(c.done(c.id, True)); dist["refusal"] += 1
+    return {"cases": cases, "exhaustive": False, "dist": dict(dist),
+            "rule": "scripted call sequences over every method of the Python Expression / Table / Bdd classes (the method list is read from dir() of the built module; an uncalled method fails the check): construction, connectives, conversions, restriction, substitution, quantifiers, derivative, comparisons, evaluation in the three modes, iterators, text forms, CSV import with every error kind, parsing through the constructor, wrong constructor arguments; executed through the extension module built from /repo, the Rust API (harness) and the model; every value the Python call returns must equal the Rust one and exceptions must be of the documented kind; non-trivial = all; distinct = script"}
+
+
+GENERATORS.update({"C19": gen_C19})
